@@ -1,7 +1,7 @@
 SPECIFICATION Spec
 CONSTANTS
   Design = "grader_bookkeeping"
-  Kind = "blocked"
+  Kind = "catcher"
   MaxSteps = 2
   Inject = "base"
   Handback = "per_run"
